@@ -186,10 +186,11 @@ type harness struct {
 	pmask []int
 	deflt got
 
-	mu   stdsync.Mutex // never held across a sleep
-	seq  int64
-	ops  []*op
-	done bool // body ran to its end
+	mu       stdsync.Mutex // never held across a sleep
+	seq      int64
+	ops      []*op
+	done     bool   // body ran to its end
+	epilogue string // "check|detail" of a violation found by an epilogue
 
 	lastAt     time.Duration
 	lastTh     int
@@ -540,9 +541,75 @@ func (h *harness) run() {
 	cancel()
 	readers.Wait()
 	time.Sleep(time.Millisecond)
+	if sc.Cfg("stall_epilogue", 0) == 1 {
+		h.stalledConsumer()
+	}
 	h.mu.Lock()
 	h.done = true
 	h.mu.Unlock()
+}
+
+// stalledConsumer is an epilogue on a relay of its own (the judged history has
+// at most 12 envelopes so that a receiver's 16 slots never fill up): a
+// receiver that nobody reads and a recording consumer are subscribed for the
+// same envelopes; a producer puts 20 of them and legitimately blocks when the
+// receiver is full; then the stalled receiver is closed. The producer must go
+// on, and the other consumer gets every envelope exactly once.
+func (h *harness) stalledConsumer() {
+	s := h.s
+	relay := wire.NewRelay()
+	relay.SetDefaultMsgHandler(func(*wire.Envelope) {})
+	stalled := wire.NewReceiver()
+	rec := &recorder{}
+	all := func(*wire.Envelope) bool { return true }
+	first := s.Chance("stall:order", 0.5)
+	subs := []wire.Consumer{stalled, rec}
+	if !first {
+		subs = []wire.Consumer{rec, stalled}
+	}
+	for _, c := range subs {
+		if relay.Subscribe(c, all) != nil {
+			return
+		}
+	}
+	s.Count("fault.consumer_stalls_until_full_then_closes", 1)
+	const n = 20
+	done := make(chan struct{})
+	go func() {
+		defer close(done)
+		for i := 0; i < n; i++ {
+			relay.Put(newEnvelope(i, 0))
+		}
+	}()
+	time.Sleep(s.Delay("stall:before-close", time.Millisecond, 5*time.Millisecond))
+	_ = stalled.Close()
+	tm := time.NewTimer(10 * time.Second)
+	defer tm.Stop()
+	select {
+	case <-done:
+	case <-tm.C:
+		h.mu.Lock()
+		h.epilogue = "C18.put-stuck-after-consumer-close|an envelope was being handed to a receiver whose queue was full when that receiver was closed: Relay.Put did not return within 10 simulated seconds (it holds the relay's read lock; every later envelope is lost with it)"
+		h.mu.Unlock()
+		return
+	}
+	time.Sleep(time.Millisecond)
+	rec.mu.Lock()
+	tags := append([]int{}, rec.tags...)
+	rec.mu.Unlock()
+	seen := map[int]int{}
+	for _, t := range tags {
+		seen[t]++
+	}
+	for i := 0; i < n; i++ {
+		if seen[i] != 1 {
+			h.mu.Lock()
+			h.epilogue = fmt.Sprintf("C18.lost-envelope@stalled-consumer|envelope %d was handed %d times to a consumer subscribed next to a stalled receiver (20 put, %d received)", i, seen[i], len(tags))
+			h.mu.Unlock()
+			return
+		}
+	}
+	_ = relay.Close()
 }
 
 func (h *harness) do(th int, st *kernel.Step) {
